@@ -316,18 +316,71 @@ fn oracle_value(c: &Case, classes: &[u8], style: u32, kind: &Kind) -> Option<Str
     })
 }
 
+fn item_id(it: &It) -> u16 {
+    match it {
+        It::Row { .. } => 0,
+        It::Raw { id, .. } => *id,
+        It::Cell { kind, fmla, .. } => {
+            let f = fmla.is_some();
+            match (kind, f) {
+                (Kind::Blank, _) => 1,
+                (Kind::Rk(_), _) => 2,
+                (Kind::Err(_), false) => 3,
+                (Kind::Bool(_), false) => 4,
+                (Kind::Real(_), false) => 5,
+                (Kind::Str(_), false) => 6,
+                (Kind::Isst(_), _) => 7,
+                (Kind::Str(_), true) => 8,
+                (Kind::Real(_), true) => 9,
+                (Kind::Bool(_), true) => 10,
+                (Kind::Err(_), true) => 11,
+            }
+        }
+    }
+}
+
+/// indices `(first, end)` of the sheet data: behind the BrtBeginSheetData that is not inside a view / AC / column
+/// info block ([MS-XLSB] 2.1.7.62: those blocks hold no cell records), up to the next BrtEndSheetData
+fn data_span(items: &[Fr]) -> Option<(usize, usize)> {
+    let mut block_end: Option<u16> = None;
+    let mut start = None;
+    for (i, f) in items.iter().enumerate() {
+        let id = item_id(&f.it);
+        match start {
+            None => match block_end {
+                Some(e) => {
+                    if id == e {
+                        block_end = None;
+                    }
+                }
+                None => match id {
+                    0x85 => block_end = Some(0x86),
+                    0x25 => block_end = Some(0x26),
+                    0x186 => block_end = Some(0x187),
+                    0x91 => start = Some(i + 1),
+                    _ => {}
+                },
+            },
+            Some(s) => {
+                if id == 0x92 {
+                    return Some((s, i));
+                }
+            }
+        }
+    }
+    start.map(|s| (s, items.len()))
+}
+
 /// expected canonical range of a well-formed sheet: bounding box of the value cells + each value
 fn oracle_sheet(c: &Case, sh: &SheetCase) -> (String, BTreeMap<(u32, u32), String>) {
     let classes = style_classes(c);
     let mut cells: BTreeMap<(u32, u32), String> = BTreeMap::new();
     let mut row = 0u32;
-    let mut in_data = false;
-    for it in &sh.items {
+    let (a, b) = data_span(&sh.items).unwrap_or((0, 0));
+    for it in &sh.items[a..b] {
         match &it.it {
-            It::Raw { id: 0x91, .. } if !in_data => in_data = true,
-            It::Raw { id: 0x92, .. } if in_data => break,
-            It::Row { r, .. } if in_data => row = *r,
-            It::Cell { col, style, kind, .. } if in_data => {
+            It::Row { r, .. } => row = *r,
+            It::Cell { col, style, kind, .. } => {
                 if let Some(v) = oracle_value(c, &classes, *style, kind) {
                     cells.insert((row, *col), v);
                 }
@@ -639,6 +692,15 @@ fn run_case(c: &Case, drv: &mut Driver, rep: Option<&mut Counters>) -> Outcome {
         return out;
     }
     for (i, sh) in c.sheets.iter().enumerate() {
+        // D37 guard: never let the reader (or the model) build a dense range above 2^21 cells — a fault or a
+        // shrinking step can move cells far apart
+        let area = drv.ask(&format!("area {fm} {} {ss} {}", c.date1904 as u8, hex(&parts[i])));
+        if area.parse::<u64>().map_or(false, |a| a > 1 << 21) {
+            if let Some(rep) = rep.as_deref_mut() {
+                rep.count("skipped_sheet_over_area_cap");
+            }
+            continue;
+        }
         let model = normalise_model(&drv.ask(&format!("dec {fm} {} {ss} {}", c.date1904 as u8, hex(&parts[i]))));
         let got = match guarded(|| wb.worksheet_range(&sh.name)) {
             Ok(Ok(r)) => canon_range(&r),
@@ -673,17 +735,10 @@ fn run_case(c: &Case, drv: &mut Driver, rep: Option<&mut Counters>) -> Outcome {
             }
             // the Lean-side statement of the expectation (`specCells`) against the oracle here
             let mut req = format!("spec {fm} {} {ss}", c.date1904 as u8);
-            let mut in_data = false;
-            for it in &sh.items {
-                match &it.it {
-                    It::Raw { id: 0x91, .. } if !in_data => in_data = true,
-                    It::Raw { id: 0x92, .. } if in_data => break,
-                    _ if in_data => {
-                        req.push(' ');
-                        req.push_str(&it.token());
-                    }
-                    _ => {}
-                }
+            let (a, b) = data_span(&sh.items).unwrap_or((0, 0));
+            for it in &sh.items[a..b] {
+                req.push(' ');
+                req.push_str(&it.token());
             }
             let spec = normalise_model(&drv.ask(&req));
             if spec != expect || model != expect {
@@ -899,10 +954,22 @@ fn gen_sheet(rng: &mut Rng, name: String, nsst: usize, nxf: usize) -> SheetCase 
         push(rng, &mut items, 0x89, p);
         if rng.chance(1, 3) {
             // records inside a skipped block, including ids that would otherwise matter
-            let id = *rng.pick(&[0x91u16, 0x94, 0x98, 0x02]);
-            let n = *rng.pick(&[0usize, 4, 36]);
-            let p = rng.bytes(n);
-            push(rng, &mut items, id, p);
+            if rng.chance(1, 2) {
+                let id = *rng.pick(&[0x94u16, 0x98, 0x3FFF]);
+                let n = *rng.pick(&[0usize, 4, 36]);
+                let p = rng.bytes(n);
+                push(rng, &mut items, id, p);
+            } else {
+                // what a reader that does not skip the block would take for sheet data
+                push(rng, &mut items, 0x91, vec![]);
+                let f = fm.frame(rng, It::Row { r: bb[0], tail: vec![0; 13] });
+                items.push(f);
+                let f = fm.frame(rng, It::Cell { col: bb[2], style: 0, kind: Kind::Bool(1), fmla: None });
+                items.push(f);
+                if rng.chance(1, 2) {
+                    push(rng, &mut items, 0x92, vec![]);
+                }
+            }
         }
         push(rng, &mut items, 0x8A, vec![]);
         push(rng, &mut items, 0x86, vec![]);
@@ -1036,8 +1103,7 @@ fn inject_fault(rng: &mut Rng, c: &mut Case) {
     let si = rng.below(c.sheets.len() as u64) as usize;
     let nsst = c.sst.as_ref().map_or(0, |s| s.len()) as u32;
     let sh = &mut c.sheets[si];
-    let data_start = sh.items.iter().position(|f| matches!(f.it, It::Raw { id: 0x91, .. })).unwrap();
-    let data_end = sh.items.iter().position(|f| matches!(f.it, It::Raw { id: 0x92, .. })).unwrap();
+    let (data_start, data_end) = data_span(&sh.items).expect("generated sheets have a data section");
     let cells: Vec<usize> = (data_start..data_end).filter(|i| matches!(sh.items[*i].it, It::Cell { .. })).collect();
     let rows: Vec<usize> = (data_start..data_end).filter(|i| matches!(sh.items[*i].it, It::Row { .. })).collect();
     let choice = rng.below(13);
@@ -1178,13 +1244,11 @@ fn inject_fault(rng: &mut Rng, c: &mut Case) {
             c.fault = "rows_unsorted".into();
         }
         11 => {
-            let i = sh.items.iter().position(|f| matches!(f.it, It::Raw { id: 0x92, .. })).unwrap();
-            sh.items.truncate(i);
+            sh.items.truncate(data_end);
             c.fault = "no_end_sheet_data".into();
         }
         _ => {
-            let i = sh.items.iter().position(|f| matches!(f.it, It::Raw { id: 0x91, .. })).unwrap();
-            sh.items.remove(i);
+            sh.items.remove(data_start - 1);
             c.fault = "no_begin_sheet_data".into();
         }
     }
@@ -1390,7 +1454,7 @@ fn sweeps(args: &Args, rng: &mut Rng, drv: &mut Driver, rep: &mut Report) {
         }
     }
     // lengths: complete low ranges, boundaries, random large values, at every width that holds them
-    let limit: u64 = if args.thorough() { 1 << 13 } else { 1200 };
+    let limit: u64 = if args.thorough() { 1 << 14 } else { 1200 };
     let check_lens = |ns: &[u64], w: u8, lo_hi_step: Option<(u64, u64, u64)>, drv: &mut Driver, rep: &mut Report| {
         let mut part = vec![];
         let mut enc = vec![];
@@ -1455,7 +1519,7 @@ fn sweeps(args: &Args, rng: &mut Rng, drv: &mut Driver, rep: &mut Report) {
         }
         // random values, log-uniform, up to 2^22 (quick) / 2^24 (thorough)
         let top = if args.thorough() { 1u64 << 24 } else { 1 << 22 };
-        let nrand = if args.thorough() { 60 } else { 10 };
+        let nrand = if args.thorough() { 240 } else { 10 };
         for _ in 0..nrand {
             let n = log_uniform(rng, top.min(cap) - 1);
             if n >= hi {
@@ -1466,8 +1530,9 @@ fn sweeps(args: &Args, rng: &mut Rng, drv: &mut Driver, rep: &mut Report) {
             bs.push((1 << 27) + 12345);
             bs.push((1 << 28) - 1);
         }
-        if !bs.is_empty() {
-            check_lens(&bs, w, None, drv, rep);
+        // one part per 12 values: the payloads are materialised
+        for chunk in bs.chunks(12) {
+            check_lens(chunk, w, None, drv, rep);
         }
     }
     // truncated parts: every prefix of a short record sequence
